@@ -18,6 +18,8 @@ namespace celeritas
 {
 class CoreParams;
 class ParticleParams;
+class OrangeParams;
+using GeoParams = OrangeParams;
 }  // namespace celeritas
 
 namespace verif
@@ -166,7 +168,10 @@ draw_primaries(Problem const& prob, verif::Rng& rng, int num_events, int first_e
 
 std::string repo_root();
 
-// Cached reference locator for a bundled geometry (null if unavailable)
+// Cached runtime geometry for a key (bundled stem or "gen:<seed>")
+std::shared_ptr<celeritas::GeoParams const> load_geometry(std::string const& key);
+
+// Cached reference locator for the same key (null if unavailable)
 std::shared_ptr<verif::refloc::RefLocator const> load_locator(std::string const& stem);
 
 }  // namespace vt
